@@ -202,9 +202,9 @@ class LifeRun:
                                 if self._nconn() > n0:
                                     break
                                 await asyncio.sleep(0.005)
-                        self.log(ev="Connect", ok=True, exc="", flag=bool(api.connected), newconn=self._nconn() > n0)
+                        self.log(ev="Connect", ok=True, exc="", flag=bool(api.connected), newconn=self._nconn() > n0, listening=not refuse)
                     except OSError as x:
-                        self.log(ev="Connect", ok=False, exc=type(x).__name__, flag=bool(api.connected))
+                        self.log(ev="Connect", ok=False, exc=type(x).__name__, flag=bool(api.connected), listening=not refuse)
                     if refuse:
                         if self.mode == "virtual":
                             self.net.listen(good, port, True)
